@@ -46,7 +46,7 @@ def run(rep, tier, seed):
         case = engine.Case(t, v)
         rep.case('corpus ' + case.canon, nontrivial=True)
         check_case(rep, drv, case, [('ber', dm, ch)], rng)
-    for case in engine.gen_cases(rng, n, max_depth=3):
+    for case in engine.gen_cases(rng, n, max_depth=3, allow_any=True, any_ber=True):
         if not engine.representable(case):
             rep.count('unrepresentable')
             if not sigs.t4a_applies(case.t, case.v):
